@@ -8,6 +8,8 @@ import (
 	"compress/gzip"
 	"fmt"
 	"io"
+	"os"
+	"os/exec"
 	"strings"
 	"sync"
 
@@ -42,6 +44,25 @@ func verifCompress(ext, data string) string {
 		w, _ := zstd.NewWriter(&buf)
 		w.Write([]byte(data))
 		w.Close()
+	case ".xz", ".lzma", ".bz2":
+		// no Go writer for these in the module cache: the tooling Python's lzma / bz2 modules write the stream,
+		// the library's own third-party decoders read it
+		code := map[string]string{
+			".xz":   "import sys,lzma;sys.stdout.buffer.write(lzma.compress(sys.stdin.buffer.read(),format=lzma.FORMAT_XZ))",
+			".lzma": "import sys,lzma;sys.stdout.buffer.write(lzma.compress(sys.stdin.buffer.read(),format=lzma.FORMAT_ALONE))",
+			".bz2":  "import sys,bz2;sys.stdout.buffer.write(bz2.compress(sys.stdin.buffer.read()))",
+		}[ext]
+		py := os.Getenv("VERIF_PYTHON")
+		if py == "" {
+			py = "python3"
+		}
+		cmd := exec.Command(py, "-c", code)
+		cmd.Stdin = strings.NewReader(data)
+		out, err := cmd.Output()
+		if err != nil {
+			panic("verifCompress: " + ext + " writer failed: " + err.Error())
+		}
+		return string(out)
 	default:
 		panic("verifCompress: no native writer for " + ext)
 	}
